@@ -4,6 +4,7 @@ from ..model import own_nodes, AnalysisError
 from ..paths import factmap, call_text
 from ..callgraph import CallGraph
 
+from . import shared
 MODEL_CLASSES = ('ProcessStartCommandModel', 'ApplicationStartJobsModel', 'StarterModel')
 SINK_CLASSES = {'RpcHandler', 'SupervisorProxyServer', 'SupervisorProxy', 'SupervisorProxyThread', 'MulticastSender',
                 'EventPublisherInterface', 'SupervisorData', 'SupervisorUpdater'}
@@ -126,6 +127,20 @@ def run(P, R):
             R.fail(r1, 'effect|%s|%s' % (n[1].qual, caller), parent[0][1].loc(parent[1].node) if parent else n[1].loc(),
                    'a prediction can reach %s (%s): %s' % (n[1].qual, sink(n), G.path_text(mine, n)),
                    '%s reaches no effect sink' % e[1].qual)
+    # a dynamic attribute store on the live state & modes / context (setattr(obj, name, value)) is a publication too
+    for n in seen:
+        ctx, u = n
+        if sink(n):
+            continue
+        env = None
+        for c in own_nodes(u.node):
+            if isinstance(c, ast.Call) and isinstance(c.func, ast.Name) and c.func.id == 'setattr' and c.args:
+                env = env or P.env(u, ctx)
+                t = env.typeof(c.args[0])
+                if t and t[0] == 'inst' and t[1].name in ('SupvisorsStateModes', 'Context', 'SupervisorListener'):
+                    R.fail(r1, 'effect|setattr|%s' % u.qual, u.loc(c), 'a prediction can reach %s, which stores an '
+                           'attribute of the live %s with setattr(): %s' % (u.qual, t[1].name, G.path_text(seen, n)),
+                           'no dynamic store on the live state & modes')
     unres = sorted({'%s:%d %s' % (n[1].qual, l, t) for n in seen for l, t in G.unres.get(n, [])})
     R.stats['callgraph'] = {'nodes_reached': len(seen), 'unresolved_in_reached': len(unres)}
     R.extra['unresolved_calls_sample'] = unres[:40]
@@ -282,6 +297,8 @@ def run(P, R):
             if a in ('pickup_logic', 'failure_state'):
                 R.fail(r3, 'override-attr|%s|%s' % (cname, a), c.mod.relpath + ':%d' % c.node.lineno,
                        '%s rebinds %s: sequencing differs from the real start' % (cname, a))
+    shared.polymorphic_factories(P, R, r3)
+    shared.command_added_hook(P, R, r3)
     nx = P.unit('StarterModel.next')
     sup = [c for c in own_nodes(nx.node) if isinstance(c, ast.Call) and call_text(c) == 'super().next']
     ok = len(sup) == 1 and not factmap(nx).at(sup[0])
